@@ -115,6 +115,7 @@ fn part_entry_points(thorough: bool) -> Acc {
     docs_extra_queries(&mut qs);
     // some invalid strings too
     qs.extend(["$[", "$.", "$[?@.a==]", "$[?length(@.*)>1]", "", "$$", "@", "$[01]"].iter().map(|s| s.to_string()));
+    qs.extend(crate::checks::lifted::PREPARED.iter().map(|s| s.to_string()));
     qs.par_iter()
         .map(|q| {
             let mut acc = Acc::new();
@@ -146,25 +147,26 @@ fn kept_query_over_documents<'a>(acc: &mut Acc, q: &str, docs: impl Iterator<Ite
         Ok(Ok(jq)) => jq,
         _ => return,
     };
+    let docs: Vec<&Value> = docs.collect();
+    // first all evaluations of the kept query, one after another with nothing in between (a call through a string
+    // entry point in between could reset what the kept query left behind), then the per-call baseline
     let mut slot = Value::Null;
-    let mut history: Vec<Value> = vec![];
-    for d in docs {
+    let mut kept_results = vec![];
+    for d in &docs {
         slot.clone_from(d);
         acc.evals += 1;
         acc.transitions += 1;
-        let a = pv_parsed(&kept, &slot);
+        kept_results.push(pv_parsed(&kept, &slot));
+    }
+    for (i, d) in docs.iter().enumerate() {
         let b = pv(q, d);
-        if a != b {
-            let prev = history.last().cloned().unwrap_or(Value::Null);
+        if kept_results[i] != b {
+            let prev = if i > 0 { docs[i - 1].clone() } else { Value::Null };
             acc.viol(
-                format!("{}: parsed once and evaluated on a variable that held {} before and holds {} now, it returns {} ; the query string on that document returns {}", q, prev, d, a, b),
+                format!("{}: parsed once and evaluated on a variable that held {} before and holds {} now, it returns {} ; the query string on that document returns {}", q, prev, d, kept_results[i], b),
                 json!({"kind": "kept-query", "class": "kept parsed query over successive documents in one variable", "query": q, "docs": [prev, d]}),
             );
             return;
-        }
-        history.push(d.clone());
-        if history.len() > 1 {
-            history.remove(0);
         }
     }
     acc.bump("kept_query_document_sequences", 1);
